@@ -1,5 +1,6 @@
 import DracoProofs.Wrap
 import DracoProofs.Octahedron
+import DracoProofs.GeneratedFuncs
 /-
   C16 — prediction-correction transforms are exactly invertible.
 
@@ -221,5 +222,137 @@ theorem octa_noncanonical_counterexample :
     Octa.decOrig (Octa.ofCenter 3) (0, 0) (Octa.encCorr (Octa.ofCenter 3) (6, 2) (0, 0))
       = (6, 4) := by
   decide
+
+/-! ## the source functions *are* the model functions
+
+  `Generated.*` (lean/Generated/Funcs.lean) is translated mechanically from clang's typed AST of /repo's
+  working tree on every run (tools/vlib/xlate.py), with the C integer semantics explicit.  Each theorem
+  below states that the translated C++ function equals the hand-written model function the theorems
+  above are about — on the range of its C argument types, resp. on the documented precondition in which
+  the C++ has no signed overflow.  A change of one of these functions in /repo changes the generated
+  definition and breaks the theorem. -/
+open Generated in
+/-- `OctahedronToolBox::ModMax` is `Octa.modMax` (every `int32_t` argument) -/
+theorem source_modMax_is_model (t : OctaT) (x : Int) (hwf : t.WF) (hx : I32 x) :
+    OctahedronToolBox.ModMax (ofOctaT t) x = Octa.modMax t x := ModMax_eq_model t x hwf hx
+example : Generated.OctahedronToolBox.ModMax (Generated.ofOctaT (Octa.ofCenter 127)) 200 = -55 := by
+  rw [source_modMax_is_model _ _ (by unfold OctaT.WF Octa.ofCenter; decide) (by decide)]; decide
+
+open Generated in
+/-- `OctahedronToolBox::MakePositive` is `Octa.makePositive` -/
+theorem source_makePositive_is_model (t : OctaT) (x : Int) (hwf : t.WF) (hx : I32 x) :
+    OctahedronToolBox.MakePositive (ofOctaT t) x = Octa.makePositive t x := MakePositive_eq_model t x hwf hx
+example : Generated.OctahedronToolBox.MakePositive (Generated.ofOctaT (Octa.ofCenter 127)) (-5) = 250 := by
+  rw [source_makePositive_is_model _ _ (by unfold OctaT.WF Octa.ofCenter; decide) (by decide)]; decide
+
+open Generated in
+/-- `OctahedronToolBox::IsInDiamond` is `Octa.isInDiamond` (all arguments) -/
+theorem source_isInDiamond_is_model (t : OctaT) (s tt : Int) (hwf : t.WF) :
+    OctahedronToolBox.IsInDiamond (ofOctaT t) s tt = Octa.isInDiamond t s tt := IsInDiamond_eq_model t s tt hwf
+example : Generated.OctahedronToolBox.IsInDiamond (Generated.ofOctaT (Octa.ofCenter 127)) 100 (-28) = false := by
+  rw [source_isInDiamond_is_model _ _ _ (by unfold OctaT.WF Octa.ofCenter; decide)]; decide
+
+open Generated in
+/-- `OctahedronToolBox::InvertDiamond` is `Octa.invertDiamond` (every pair of `int32_t`) -/
+theorem source_invertDiamond_is_model (t : OctaT) (s tt : Int) (hwf : t.WF) (hs : I32 s) (ht : I32 tt) :
+    OctahedronToolBox.InvertDiamond (ofOctaT t) s tt = Octa.invertDiamond t (s, tt) :=
+  InvertDiamond_eq_model t s tt hwf hs ht
+example : Generated.OctahedronToolBox.InvertDiamond (Generated.ofOctaT (Octa.ofCenter 127)) 100 (-90) = (37, -27) := by
+  rw [source_invertDiamond_is_model _ _ _ (by unfold OctaT.WF Octa.ofCenter; decide) (by decide) (by decide)]; decide
+
+open Generated in
+/-- `…CanonicalizedTransformBase::GetRotationCount` is `Octa.rotationCount` -/
+theorem source_rotationCount_is_model (p : Int × Int) :
+    PredictionSchemeNormalOctahedronCanonicalizedTransformBase.GetRotationCount p = (Octa.rotationCount p : Int) :=
+  GetRotationCount_eq_model p
+
+open Generated in
+/-- `…CanonicalizedTransformBase::RotatePoint` is `Octa.rotatePoint` (components: `int32_t` other than `INT_MIN`,
+    whose negation is undefined) -/
+theorem source_rotatePoint_is_model (p : Int × Int) (r : Nat)
+    (h1 : -2^31 < p.1 ∧ p.1 < 2^31) (h2 : -2^31 < p.2 ∧ p.2 < 2^31) :
+    PredictionSchemeNormalOctahedronCanonicalizedTransformBase.RotatePoint p r = Octa.rotatePoint p r :=
+  RotatePoint_eq_model p r h1 h2
+example : Generated.PredictionSchemeNormalOctahedronCanonicalizedTransformBase.RotatePoint (3, -4) (3 : Nat) = (4, 3) := by
+  rw [source_rotatePoint_is_model _ _ (by decide) (by decide)]; decide
+
+open Generated in
+/-- `…CanonicalizedTransformBase::IsInBottomLeft` is `Octa.isInBottomLeft` -/
+theorem source_isInBottomLeft_is_model (p : Int × Int) :
+    PredictionSchemeNormalOctahedronCanonicalizedTransformBase.IsInBottomLeft p = Octa.isInBottomLeft p :=
+  IsInBottomLeft_eq_model p
+
+open Generated in
+/-- one iteration of `PredictionSchemeWrapTransformBase::ClampPredictedValue` on component i is `Wrap.clamp` -/
+theorem source_wrapClamp_is_model (t : WrapT) (nc p : Int) :
+    PredictionSchemeWrapTransformBase.ClampPredictedValue_elem (ofWrapT t nc) p = Wrap.clamp t p :=
+  ClampPredictedValue_eq_model t nc p
+
+open Generated in
+/-- `PredictionSchemeWrapTransformBase::InitCorrectionBounds` is `Wrap.init` (result flag and new state), for
+    every `int32_t` `min_value_`, `max_value_` -/
+theorem source_wrapInit_is_model (self : PredictionSchemeWrapTransformBase)
+    (hmin : I32 self.min_value_) (hmax : I32 self.max_value_) :
+    PredictionSchemeWrapTransformBase.InitCorrectionBounds self = initResult self :=
+  InitCorrectionBounds_eq_model self hmin hmax
+example : (Generated.PredictionSchemeWrapTransformBase.InitCorrectionBounds ⟨3, -1000, 3000, 0, 0, 0⟩) =
+    (true, ⟨3, -1000, 3000, 4001, 2000, -2000⟩) := by
+  rw [source_wrapInit_is_model _ (by decide) (by decide)]; decide
+
+open Generated in
+/-- one iteration of `PredictionSchemeWrapDecodingTransform::ComputeOriginalValue` on component i is
+    `Wrap.decOrig`, for every `int32_t` prediction, correction and bounds -/
+theorem source_wrapDecode_is_model (t : WrapT) (nc pred corr : Int)
+    (hmin : I32 t.minV) (hmax : I32 t.maxV) (hp : I32 pred) (hc : I32 corr) :
+    PredictionSchemeWrapDecodingTransform.ComputeOriginalValue_elem (ofWrapT t nc) pred corr = Wrap.decOrig t pred corr :=
+  ComputeOriginalValue_eq_model t nc pred corr hmin hmax hp hc
+example : Generated.PredictionSchemeWrapDecodingTransform.ComputeOriginalValue_elem
+    (Generated.ofWrapT ⟨-1000, 3000, 4001, 2000, -2000⟩ 3) (2^31 - 1) (-3999) = -999 := by
+  rw [source_wrapDecode_is_model _ _ _ _ (by decide) (by decide) (by decide) (by decide)]; decide
+
+open Generated in
+/-- one iteration of `PredictionSchemeWrapEncodingTransform::ComputeCorrection` on component i is
+    `Wrap.encCorr`, in every state produced by a successful `InitCorrectionBounds` on `int32_t` bounds -/
+theorem source_wrapEncode_is_model (t : WrapT) (lo hi nc orig pred : Int) (hinit : Wrap.init lo hi = some t)
+    (hlo : I32 lo) (hhi : I32 hi) (ho : I32 orig) (hp : I32 pred) :
+    PredictionSchemeWrapEncodingTransform.ComputeCorrection_elem (ofWrapT t nc) orig pred = Wrap.encCorr t orig pred :=
+  ComputeCorrection_eq_model t lo hi nc orig pred hinit hlo hhi ho hp
+example : Generated.PredictionSchemeWrapEncodingTransform.ComputeCorrection_elem
+    (Generated.ofWrapT ⟨-1000, 3000, 4001, 2000, -2000⟩ 3) (-999) (2^31 - 1) = -3999 + 4001 := by
+  rw [source_wrapEncode_is_model _ (-1000) 3000 _ _ _ (by decide) (by decide) (by decide) (by decide) (by decide)]; decide
+
+open Generated in
+/-- `AddAsUnsigned<int32_t>` is the `uint32_t` sum converted back (`wrap32`) -/
+theorem source_addAsUnsigned_is_model (a b : Int) : AddAsUnsigned a b = wrap32 (a + b) :=
+  AddAsUnsigned_eq_model a b
+
+open Generated in
+/-- `MostSignificantBit` (gcc/clang: `31 ^ __builtin_clz(n)`) is `Octa.msb` for every non-zero `uint32_t` -/
+theorem source_msb_is_model (n : Int) (hn : U32 n) (h0 : n ≠ 0) :
+    MostSignificantBit n = (Octa.msb n.toNat : Int) := MostSignificantBit_eq_model n hn h0
+example : Generated.MostSignificantBit 255 = 7 := by
+  rw [source_msb_is_model _ (by decide) (by decide)]; decide
+
+open Generated in
+/-- `PredictionSchemeNormalOctahedronCanonicalizedDecodingTransform::ComputeOriginalValue(Point2, Point2)` — the whole
+    function, with its calls of `IsInDiamond`, `InvertDiamond`, `IsInBottomLeft`, `GetRotationCount`, `RotatePoint`,
+    `AddAsUnsigned`, `ModMax` — is `Octa.decOrig`, for every prediction on the grid and every correction -/
+theorem source_octaDecode_is_model (t : OctaT) (pred corr : Int × Int) (hwf : t.WF) (hg : Octa.inGrid t pred) :
+    PredictionSchemeNormalOctahedronCanonicalizedDecodingTransform.ComputeOriginalValue (ofOctaT t) pred corr =
+      Octa.decOrig t pred corr := octaDecode_eq_model t pred corr hwf hg
+example : Generated.PredictionSchemeNormalOctahedronCanonicalizedDecodingTransform.ComputeOriginalValue
+    (Generated.ofOctaT (Octa.ofCenter 127)) (200, 13) (7, 250) = Octa.decOrig (Octa.ofCenter 127) (200, 13) (7, 250) :=
+  source_octaDecode_is_model _ _ _ (by unfold OctaT.WF Octa.ofCenter; decide) (by unfold Octa.inGrid Octa.ofCenter; decide)
+
+open Generated in
+/-- `PredictionSchemeNormalOctahedronCanonicalizedEncodingTransform::ComputeCorrection(Point2, Point2)` is
+    `Octa.encCorr`, for every original and prediction on the grid -/
+theorem source_octaEncode_is_model (t : OctaT) (orig pred : Int × Int) (hwf : t.WF)
+    (ho : Octa.inGrid t orig) (hg : Octa.inGrid t pred) :
+    PredictionSchemeNormalOctahedronCanonicalizedEncodingTransform.ComputeCorrection (ofOctaT t) orig pred =
+      Octa.encCorr t orig pred := octaEncode_eq_model t orig pred hwf ho hg
+example : Generated.PredictionSchemeNormalOctahedronCanonicalizedEncodingTransform.ComputeCorrection
+    (Generated.ofOctaT (Octa.ofCenter 127)) (3, 77) (200, 13) = Octa.encCorr (Octa.ofCenter 127) (3, 77) (200, 13) :=
+  source_octaEncode_is_model _ _ _ (by unfold OctaT.WF Octa.ofCenter; decide) (by unfold Octa.inGrid Octa.ofCenter; decide) (by unfold Octa.inGrid Octa.ofCenter; decide)
 
 end Draco
